@@ -188,10 +188,11 @@ def exec_full(case):
     for i in range(T):
         check_records(t, st.get_history("u", index=i), st.get_history("x", index=i), st.get_history("logl", index=i),
                       st.get_history("blobs", index=i) if blobs_on else None, f"history batch {i}", llf=llf)
-    for rs_, tr in itertools.product([False, True], repeat=2):
+    second = case["pool_seed"] % 3 == 0
+    # (half of the second lives start cold: the object has run but has not been asked for its posterior yet)
+    for rs_, tr in (() if (second and case["pool_seed"] % 2) else itertools.product([False, True], repeat=2)):
         o = lib_call(s.posterior, resample=rs_, trim_importance_weights=tr, return_blobs=True, return_logw=True, what="posterior")
         check_records(t, None, o[0], o[2], o[3] if blobs_on else None, f"posterior(resample={rs_},trim={tr}): returned samples", llf=llf)
-    second = case["pool_seed"] % 3 == 0
     if second:
         # second life of the same object: the checkpoint of a SIBLING run (same configuration, other seed: same extent at the same
         # index) replaces its history; what it returns and what it does next must still be whole records
